@@ -89,6 +89,9 @@ type xch struct {
 	errs   []error
 	closed bool
 	gen    int
+	// abandoned: the process that owned it was stopped (closed is set too, so
+	// that nobody polls it; monitors must not read that as "completed")
+	abandoned bool
 }
 
 func (w *World) pollExchanges() {
